@@ -184,7 +184,10 @@ func (pr *ProtoArray) CanonAtSlot(anchor Root, slot Slot, withBlock bool) (at No
 			if !ok {
 				panic("anchor node is missing")
 			}
-			node := &pr.nodes[i]
+			node, err := pr.getNode(i)
+			if err != nil {
+				return NodeRef{}, err
+			}
 			// Is the anchor a filled node?
 			if node.ParentRoot != anchor {
 				return NodeRef{}, fmt.Errorf("cannot look for pre-block %d at anchor, anchor is post-block", slot)
